@@ -25,7 +25,39 @@ def sem_corpus(seed, tier, family="sem", profile=None, ncrates=None, per_crate=N
     if fixed:
         import fixed_cases
         gens.append(fixed_cases.sem_fixed())
+        return Corpus(family, gens, extra_src=CONST_GENERIC_SRC, extra_serde_entries=CONST_GENERIC_ENTRIES, extra_last_only=True)
     return Corpus(family, gens)
+
+
+# a type whose only parameter is a const parameter, inlined twice with different values (hand-written: serde has no impl for
+# `[T; N]` with a generic N, so the array is written as a fixed-size sequence by a `with` module)
+CONST_GENERIC_SRC = """
+pub mod fx_fixed_len {
+    use serde::{de::Error, ser::SerializeTuple, Deserialize, Deserializer, Serializer};
+    pub fn serialize<S: Serializer, const N: usize>(v: &[u8; N], s: S) -> Result<S::Ok, S::Error> {
+        let mut t = s.serialize_tuple(N)?;
+        for x in v { t.serialize_element(x)?; }
+        t.end()
+    }
+    pub fn deserialize<'de, D: Deserializer<'de>, const N: usize>(d: D) -> Result<[u8; N], D::Error> {
+        let v = Vec::<u8>::deserialize(d)?;
+        let n = v.len();
+        v.try_into().map_err(|_| D::Error::invalid_length(n, &"an array of exactly N elements"))
+    }
+}
+#[derive(Clone, Debug, Serialize, Deserialize, TS)]
+pub struct FxRowN<const N: usize> { #[serde(with = "fx_fixed_len")] #[ts(as = "[u8; N]")] pub fx_cells: [u8; N] }
+#[derive(Clone, Debug, Serialize, Deserialize, TS)]
+pub struct FxBoard { #[ts(inline)] pub fx_small: FxRowN<2>, #[ts(inline)] pub fx_large: FxRowN<3>, pub fx_tail: Option<Box<FxBoard>> }
+impl vsupport::Samples for FxBoard {
+    fn samples(depth: u32) -> Vec<Self> {
+        let b = FxBoard { fx_small: FxRowN { fx_cells: [1, 2] }, fx_large: FxRowN { fx_cells: [3, 4, 5] }, fx_tail: None };
+        if depth == 0 { return vec![b]; }
+        vec![b.clone(), FxBoard { fx_small: FxRowN { fx_cells: [0, 255] }, fx_large: FxRowN { fx_cells: [9, 9, 9] }, fx_tail: Some(Box::new(b)) }]
+    }
+}
+"""
+CONST_GENERIC_ENTRIES = [("FxBoard", "FxBoard")]
 
 
 def reason_class(reason):
